@@ -254,8 +254,32 @@ class IntEnc:
                 return B
         return None
 
+    def expand(self, f):
+        """substitute remainder atoms by their defining forms (recursively), so that
+        products are taken over base atoms (inputs, quotients, Booleans)"""
+        if not hasattr(self, "_xmemo"):
+            self._xmemo = {}
+        out = Lin(f.c)
+        rest = {}
+        for a, k in f.m.items():
+            d = self.defs.get(a)
+            if d is not None and d[0] in ("rem", "sbbrem"):
+                e = self._xmemo.get(a)
+                if e is None:
+                    if d[0] == "rem":
+                        _, g, w, qa, ql = d
+                        e = self.expand(g - Lin(ql << w, {qa: 1 << w}))
+                    else:
+                        e = self.expand(d[1] + Lin(0, {d[3]: d[2]}))
+                    self._xmemo[a] = e
+                out = out + e.scale(k)
+            else:
+                rest[a] = rest.get(a, 0) + k
+        return out + Lin(0, {a: k for a, k in rest.items() if k})
+
     def product(self, fa, fb):
         """exact integer product of two forms, bilinear over atoms"""
+        fa, fb = self.expand(fa), self.expand(fb)
         r = Lin(fa.c * fb.c)
         if fa.c:
             r = r + Lin(0, dict(fb.m)).scale(fa.c)
